@@ -4,6 +4,7 @@ import Ovldverif.Model.JsonF
 import Ovldverif.Model.JsonE
 import Ovldverif.Model.JsonG
 import Ovldverif.Model.JsonH
+import Ovldverif.Model.Build
 import Ovldverif.Spec.Types
 import Ovldverif.Spec.Resolve
 /-! Line-protocol driver: one JSON scenario per input line, one JSON result per output line. -/
@@ -74,6 +75,17 @@ def runD (j : Json) : Except String Json := do
           ("static", toJson (staticTable mm.meths)), ("cc", toJson (candComparable cfg.H mm.meths k)),
           ("tie", toJson (sigTieOK cfg.H mm.meths k)),
           ("napp", toJson (applicable cfg.H mm.meths k).length), ("nres", toJson nres)]
+      | none => throw "bad key index"
+    else if kind == "cut" then
+      let c : Option Nat ← (if a[1]!.isNull then pure none else some <$> jNat a[1]!)
+      let ki ← jNat a[2]!
+      let n ← jNat a[3]!
+      match keys[ki]? with
+      | some k =>
+        let will := mm.resolvesAt cfg (c, k)
+        let nw := if will then (ws (plan cfg mm.meths) k).length else 0
+        mm := mm.lookupCut cfg (c, k) n
+        res := Json.mkObj [("nw", toJson nw), ("will", toJson will)]
       | none => throw "bad key index"
     else throw s!"bad op {kind}"
     let ck := dedupS (mm.st.cacheKeys.map (ckStr keys))
@@ -167,6 +179,81 @@ def runC (j : Json) : Except String Json := do
     | some lv => toJson ((lv.map (fun (t, l) => [avail.findIdx (· == t), l])).mergeSort (fun a b => a[0]! ≤ b[0]!)))
   return Json.mkObj [("levels", Json.arr res.toArray)]
 
+/-- layer I: the build state machine (`Model/Build.lean`) -/
+def bStateJson (s : Build.S) : Json :=
+  Json.mkObj [("defns", toJson s.defns), ("compiled", toJson s.compiled),
+    ("entry", match s.entry with | none => Json.null | some e => toJson e), ("table", toJson s.table)]
+
+def bOutJson : Build.Out → Json
+  | .done => Json.str "done"
+  | .error => Json.str "error"
+  | .served e t => Json.arr #[Json.str "served", toJson e, toJson t]
+
+def runI (j : Json) : Except String Json := do
+  let bad ← (← jArr (jFieldD j "bad" (Json.arr #[]))).toList.mapM jNat
+  let conflict ← (← jArr (jFieldD j "conflict" (Json.arr #[]))).toList.mapM jNat
+  let cfg : Build.Cfg := { bad := fun d => bad.contains d,
+                           namesOK := fun ds => !(ds.any (fun d => conflict.contains d) && ds.length ≥ 2) }
+  let ops ← jArr (← jField j "ops")
+  let mut s : Build.S := {}
+  let mut out : Array Json := #[]
+  for op in ops do
+    let a ← jArr op
+    let kind ← jStr a[0]!
+    if true then
+      -- the state in which the operation's build (if any) starts, and the micro-steps that precede it
+      let d ← (if kind == "call" then pure 0 else jNat a[1]!)
+      let s1 : Build.S := match kind with
+        | "reg" => { s with defns := if s.defns.contains d then s.defns else s.defns ++ [d] }
+        | "unreg" => { s with defns := s.defns.filter (· != d) }
+        | _ => s
+      let base : Nat := if kind == "call" then 0 else 2
+      let spec := a[2]!
+      let mut fault : Option Nat := none
+      let mut noM : Option Json := none
+      if spec.isNull then fault := none
+      else match spec with
+        | .num _ => fault := some (← jNat spec)
+        | _ =>
+          let phase ← jStr (← jField spec "phase")
+          if phase == "pre" then fault := some 0
+          else if phase == "gap" then fault := some 1
+          else if phase == "after" then fault := none
+          else
+            let pre ← jField spec "pre"
+            let pt ← (← jArr (← jField pre "table")).toList.mapM jNat
+            let pe ← jBool (← jField pre "entry")
+            let pc ← jBool (← jField pre "compiled")
+            let cands := (List.range (s1.defns.length + 7)).filter (fun i =>
+              let x := (Build.compileRaw cfg s1 (some i)).1
+              x.table == pt && x.entry.isSome == pe && x.compiled == pc)
+            match cands.head? with
+            | some i => fault := some (base + i)
+            | none => noM := some (Json.arr ((Build.buildTrace cfg s1).map bStateJson).toArray)
+      match noM with
+      | some t => out := out.push (Json.mkObj [("nomatch", t)])
+      | none =>
+        let bop : Build.Op ← (match kind with
+          | "reg" => pure (Build.Op.register d fault)
+          | "unreg" => pure (Build.Op.unregister d fault)
+          | "call" => do
+            let r ← jStr a[1]!
+            pure (Build.Op.call (if r == "fn" then .fn else .obj) fault)
+          | _ => throw s!"bad op {kind}")
+        let gap := bop.inGap s
+        let safeB := fun (s : Build.S) => s.entry.isNone || (s.compiled && s.entry == some s.defns && s.table == s.defns)
+        let wantTrace := match a[3]? with | some (Json.bool true) => true | _ => false
+        let builds := match bop with
+          | .call .fn _ => s.entry.isNone
+          | .call .obj _ => !s.compiled || s.entry.isNone
+          | _ => s.compiled
+        let trace : Json := if wantTrace && builds then Json.arr ((Build.buildTrace cfg s1).map bStateJson).toArray else Json.null
+        let (s', o) := Build.step cfg s bop
+        s := s'
+        out := out.push (Json.mkObj [("out", bOutJson o), ("s", bStateJson s), ("gap", toJson gap), ("safe", toJson (safeB s)), ("trace", trace),
+          ("fault", match fault with | none => Json.null | some n => toJson n)])
+  return Json.mkObj [("ops", Json.arr out)]
+
 /-- layer H: the model of `NameConverter` applied to an expression of the modelled subset -/
 def runH (j : Json) : Except String Json := do
   let es ← (← jArr (← jField j "exprs")).toList.mapM Ovld.Rw.exprOfJson
@@ -187,6 +274,7 @@ def runLine (line : String) : String :=
       | "E" => runE j
       | "G" => runG j
       | "H" => runH j
+      | "I" => runI j
       | _ => throw s!"unknown layer {layer}"
     match r with
     | .ok v => v.compress
